@@ -27,8 +27,8 @@ from .sched import Scheduler, count_steps
 
 OPS = ["ensure_kid", "thumbprint", "as_dict_pub", "as_dict", "keyset_new", "get_kid", "sign", "sign2", "sign_ks", "verify", "verify2", "encrypt", "encrypt2", "decrypt", "decrypt2",
        "decrypt_zip", "decrypt_zip_over", "verify_forged", "ks_export", "ks_verify", "ks_sign",
-       "sign_raw", "verify_raw_unlisted", "reg_ecdh", "reg_foreign_name", "sigkey_view", "sigkey_misuse", "pem_plain", "pem_password"]
-CRYPTO = {"sign", "sign2", "sign_ks", "verify", "verify2", "encrypt", "encrypt2", "decrypt", "decrypt2", "decrypt_zip", "decrypt_zip_over", "verify_forged", "ks_export", "ks_verify", "ks_sign", "sign_raw", "verify_raw_unlisted", "reg_ecdh", "reg_foreign_name", "sigkey_view", "sigkey_misuse"}
+       "sign_raw", "verify_raw_unlisted", "reg_ecdh", "reg_foreign_name", "sigkey_view", "sigkey_misuse", "pem_plain", "pem_password", "encrypt_c20p", "encrypt_xc20p"]
+CRYPTO = {"encrypt_c20p", "encrypt_xc20p", "sign", "sign2", "sign_ks", "verify", "verify2", "encrypt", "encrypt2", "decrypt", "decrypt2", "decrypt_zip", "decrypt_zip_over", "verify_forged", "ks_export", "ks_verify", "ks_sign", "sign_raw", "verify_raw_unlisted", "reg_ecdh", "reg_foreign_name", "sigkey_view", "sigkey_misuse"}
 ZIP_SMALL = b"compressed plaintext " * 40
 ZIP_OVER = 256_000 + 300
 _ZTOK: dict = {}
@@ -44,7 +44,7 @@ LAZY = set(OPS)
 # operations that touch the same shared object(s)
 GROUPS = [{"ensure_kid", "thumbprint", "as_dict_pub", "as_dict", "keyset_new", "get_kid", "sign", "sign2", "decrypt", "pem_plain", "pem_password"},
           {"sign", "sign2", "sign_ks", "verify", "verify2", "verify_forged", "sign_raw", "verify_raw_unlisted", "ks_sign", "ks_verify"},
-          {"encrypt", "encrypt2", "decrypt", "decrypt2", "decrypt_zip", "decrypt_zip_over", "reg_ecdh", "reg_foreign_name", "sigkey_misuse"},
+          {"encrypt", "encrypt2", "decrypt", "decrypt2", "decrypt_zip", "decrypt_zip_over", "reg_ecdh", "reg_foreign_name", "sigkey_misuse", "encrypt_c20p", "encrypt_xc20p"},
           {"ks_export", "ks_verify", "ks_sign", "sign_ks"}, {"sigkey_view", "sigkey_misuse"}]
 JWE_OPS = ("encrypt", "decrypt", "encrypt2", "decrypt2", "decrypt_zip", "decrypt_zip_over", "sigkey_misuse")
 
@@ -87,6 +87,9 @@ class World:
         self.reg = _jwe.JWERegistry(algorithms=["ECDH-ES+A128KW", "dir", "A128GCM"])
         self.reg_ec = J.fresh_jkey(J.pub(K.get("EC:P-256", 1)))
         self.reg_oct = J.fresh_jkey(K.get("oct128", 0))
+        J.register_drafts({"chacha"})
+        self.dir_jwk = K.get("oct256", 1)
+        self.dir_key = J.fresh_jkey(self.dir_jwk)
         self.raw_hdr = {"alg": self.alg, "b64": False, "crit": ["b64"]}
         self.token_raw = R.jws_compact(R.jdump(self.raw_hdr), b"unencoded_payload-1", self.alg, self.jwk, b64=False)
         self.other_alg = {"ES256": "ES384", "RS256": "PS256", "EdDSA": "ES256", "HS256": "HS384"}[self.alg]
@@ -177,6 +180,10 @@ class World:
             def f(): return ("jws2", jws.serialize_compact({"alg": w.alg}, b"message", w.ks, algorithms=[w.alg]))
         elif name == "verify":
             def f(): return ("payload", jws.deserialize_compact(w.token, w.pub, algorithms=[w.alg]).payload)
+        elif name in ("encrypt_c20p", "encrypt_xc20p"):
+            # the draft content encryptions: direct encryption with one shared 256-bit key, every producer draws its own nonce
+            enc = "C20P" if name == "encrypt_c20p" else "XC20P"
+            def f(): return ("jwe_dir", jwe.encrypt_compact({"alg": "dir", "enc": enc}, b"plaintext", w.dir_key, algorithms=["dir", enc]))
         elif name == "encrypt":
             def f(): return ("jwe", jwe.encrypt_compact({"alg": w.jalg, "enc": "A128GCM"}, b"plaintext", w.pub, algorithms=[w.jalg, "A128GCM"]))
         elif name == "decrypt_zip":
@@ -226,6 +233,12 @@ class World:
             except Exception as e:  # noqa
                 return f"produced token does not decrypt: {e}"
         if kind == "plaintext": return None if v == b"secret plaintext" else "decrypted plaintext differs"
+        if kind == "jwe_dir":
+            try:
+                _, pt = R.jwe_decrypt(v, self.dir_jwk)
+                return None if pt == b"plaintext" else "token plaintext differs"
+            except Exception as e:  # noqa
+                return f"produced token does not decrypt: {e}"
         if kind == "pem":
             return None if (v == b"" or b"PRIVATE KEY" in v) else "private PEM export differs"
         if kind == "pem_pw":
@@ -292,7 +305,7 @@ def run_schedule(kind, names, preempts, first):
                 ks.get_by_kid(observed[0])
             except Exception as e:  # noqa
                 problems.append(f"get_by_kid of the observed kid fails: {type(e).__name__}")
-    ivs = [r[1].split(".")[2] for r in s.results if r and r[0] == "jwe"]
+    ivs = [r[1].split(".")[2] for r in s.results if r and r[0] in ("jwe", "jwe_dir")]
     if len(set(ivs)) != len(ivs):
         problems.append("concurrent encryptions share an IV")
     return problems, s
